@@ -246,8 +246,19 @@ func (t *Template) DefinedTemplates() string {
 // To guarantee that the template body is never controlled by an attacker, text
 // must be an untyped string constant, which is always under programmer control.
 func (t *Template) Parse(text stringConstant) (*Template, error) {
-	if err := t.checkCanParse(); err != nil {
-		return nil, err
+	// The lock is held from the check to the update of the set, so that a concurrent first
+	// execution cannot freeze the set in between and then run what is parsed here unanalysed.
+	t.nameSpace.mu.Lock()
+	defer t.nameSpace.mu.Unlock()
+	if t.nameSpace.escaped {
+		return nil, fmt.Errorf("html/template: cannot Parse after Execute")
+	}
+
+	// Remember what is defined so far: only what this call defines or redefines is taken
+	// over below. (The underlying set may still hold templates that New has replaced.)
+	before := make(map[string]*parse.Tree)
+	for _, v := range t.text.Templates() {
+		before[v.Name()] = v.Tree
 	}
 
 	ret, err := t.text.Parse(string(text))
@@ -258,13 +269,14 @@ func (t *Template) Parse(text stringConstant) (*Template, error) {
 	// In general, all the named templates might have changed underfoot.
 	// Regardless, some new ones may have been defined.
 	// The template.Template set has been updated; update ours.
-	t.nameSpace.mu.Lock()
-	defer t.nameSpace.mu.Unlock()
 	for _, v := range ret.Templates() {
 		name := v.Name()
 		tmpl := t.set[name]
 		if tmpl == nil {
 			tmpl = t.new(name)
+		} else if old, ok := before[name]; ok && old == v.Tree && tmpl.text != v {
+			// Not touched by this call, and replaced by New in the meantime.
+			continue
 		}
 		tmpl.text = v
 		tmpl.Tree = v.Tree
